@@ -75,8 +75,14 @@ impl<'a> BTreeIterator<'a> {
 		log: &'a RwLock<crate::log::LogOverlays>,
 		commit_overlay: &'a RwLock<Vec<CommitOverlay>>,
 	) -> Result<Self> {
-		let record_id = log.read().last_record_id(col);
-		let tree = table.with_locked(|btree| BTree::open(btree, log, record_id))?;
+		// The log is locked over the header read, as `seek` does: with a lock per query the
+		// commit worker could be writing the header entry into the table file between the
+		// overlay miss and the read of the file.
+		let tree = {
+			let log = log.read();
+			let record_id = log.last_record_id(col);
+			table.with_locked(|btree| BTree::open(btree, &*log, record_id))?
+		};
 		let iter = BTreeIterState::new(tree.record_id);
 		Ok(BTreeIterator {
 			table,
